@@ -130,7 +130,10 @@ def evaluate(text: str, version: str):
     from elementpath.datatypes import Float
     from elementpath.exceptions import ElementPathError
     try:
-        r = elementpath.select(None, text, item=1, parser=parsers()[version])
+        if version.endswith('c'):      # the same parser class in XPath 1.0 compatibility mode
+            r = elementpath.select(None, text, item=1, parser=parsers()[version[:-1]], compatibility_mode=True)
+        else:
+            r = elementpath.select(None, text, item=1, parser=parsers()[version])
     except ElementPathError as e:
         code = (e.code or '').split(':')[-1]
         return ('err', code)
@@ -443,6 +446,7 @@ DERIVED = [('byte', -128), ('byte', 127), ('short', -32768), ('int', -2147483648
            ('long', 9223372036854775807), ('negativeInteger', -5), ('nonPositiveInteger', -3), ('nonPositiveInteger', 0),
            ('nonNegativeInteger', 0), ('positiveInteger', 7), ('unsignedByte', 255), ('unsignedShort', 65535),
            ('unsignedInt', 4294967295), ('unsignedLong', 18446744073709551615), ('integer', -12)]
+SPECIAL_PARTNERS = [_special('dbl', 'pinf'), _special('dbl', 'ninf'), _special('dbl', 'nan'), dict(t='dbl', k='fin', q=(0, 1), nz=True, ap=False)]
 PARTNERS = [('flt', Fraction(10)), ('flt', Fraction(1, 1024)), ('dbl', Fraction(2) ** 600), ('dbl', Fraction(2) ** -600), ('int', 1), ('int', -2), ('int', 3), ('dec', Fraction(1, 2)), ('dec', Fraction(-5, 2)), ('dbl', Fraction(5, 2)),
             ('dbl', Fraction(-3)), ('dbl', Fraction(1)), ('flt', Fraction(3, 2)), ('flt', Fraction(-2))]
 
@@ -528,9 +532,18 @@ def wide_cases():
             if _promote(a['t'], tb) == 'flt' and Fraction(_f32(float(frac(a)))) != frac(a):
                 continue
             tbx = render(b, 'lit') if max(abs(b['q'][0]), b['q'][1]) < 2 ** 40 else wide_text(b)
+            vs2 = ['2.0', '3.1'] + (['2.0c', '3.1c'] if a['t'] == 'dbl' and tb == 'dbl' else [])
             for op, sym in OPS.items():
-                ops.append((f'{ta} {sym} {tbx}', PYM_BIN[op](a, b), ['2.0', '3.1'], dict(action='WideBin', op=op, ta=a['t'], tb=tb, spelling=sp or 'plain', side='left')))
-                ops.append((f'{tbx} {sym} {ta}', PYM_BIN[op](b, a), ['2.0', '3.1'], dict(action='WideBin', op=op, ta=tb, tb=a['t'], spelling=sp or 'plain', side='right')))
+                ops.append((f'{ta} {sym} {tbx}', PYM_BIN[op](a, b), vs2, dict(action='WideBin', op=op, ta=a['t'], tb=tb, spelling=sp or 'plain', side='left')))
+                ops.append((f'{tbx} {sym} {ta}', PYM_BIN[op](b, a), vs2, dict(action='WideBin', op=op, ta=tb, tb=a['t'], spelling=sp or 'plain', side='right')))
+    # finite doubles of the grid against the IEEE specials, in both parser modes
+    for x in (5.0, -5.0, 0.0, 2.5, 1e300):
+        a = _wv('dbl', x)
+        for b in SPECIAL_PARTNERS:
+            for op, sym in OPS.items():
+                for l, r_ in ((a, b), (b, a)):
+                    ops.append((f'{render(l, "ctor")} {sym} {render(r_, "ctor")}', PYM_BIN[op](l, r_), ['2.0', '3.1', '2.0c', '3.1c'],
+                                dict(action='WideBin', op=op, ta='dbl', tb='dbl', spelling='special', side='both')))
     out = []
     for text, exp, vs, feat in ops:
         e = wide_expected(exp)
@@ -547,7 +560,7 @@ def wide_worker(job):
             n += 1
             out = compare(exp, obs, v)
             if out is not None:
-                f = dict(feat, outcome=out, parser='2+', sign_a=None,
+                f = dict(feat, outcome=out, parser='2+compat' if v.endswith('c') else '2+', sign_a=None,
                          expected_kind=('err:' + exp['code']) if exp['t'] == 'err' else sign_class(exp))
                 fails.append((f, dict(expr=text, parser=v), exp, obs))
     return n, fails
